@@ -85,6 +85,8 @@ def work(arg):
             pair[cfg["autokwd"]] = (interp, mm)
         if len(pair) < 2:
             continue
+        interp_x, mm_x, err_x = diff.compile_both(g, {"autokwd": True, "skipws": False})
+        extra = None if err_x is not None else (interp_x, mm_x)
         u.count("grammars")
         for text in texts:
             res = {}
@@ -97,6 +99,14 @@ def work(arg):
                 if not agree:
                     u.fail(cid, {"grammar": g, "cfg": {"autokwd": flag}, "input": text}, sig="ref-vs-impl autokwd=%s %s" % (flag, tname),
                            what="%s | autokwd=%s | input=%r | reference=%s | implementation=%s" % (gtext.strip(), flag, text, json.dumps(r)[:160], json.dumps(i)[:160]))
+            if extra is not None:
+                # autokwd with whitespace skipping switched off (keywords then stand next to each other or to explicit matches)
+                agree, r, i = diff.compare(extra[0], extra[1], text)
+                cid = [gtext, "autokwd+noskipws", text]
+                u.case(cid, nontrivial=(r[0] == "accept"))
+                if not agree:
+                    u.fail(cid, {"grammar": g, "cfg": {"autokwd": True, "skipws": False}, "input": text}, sig="ref-vs-impl autokwd+noskipws %s" % tname,
+                           what="%s | autokwd=True skipws=False | input=%r | reference=%s | implementation=%s" % (gtext.strip(), text, json.dumps(r)[:160], json.dumps(i)[:160]))
             # metamorphic clause
             diff.ref_outcome(r0, text)
             glued = any(e < len(text) and (text[e].isalnum() or text[e] == "_") for e in r0.kw_hits)
